@@ -120,6 +120,8 @@ func (vm *Vm) Run(ctx context.Context, b []byte) ([]byte, error) {
 	logg.Tracef("new vm run")
 	running := true
 	vm.last = ""
+	// every run handles a new input: a match belongs to the run that made it
+	vm.st.ResetFlag(state.FLAG_INMATCH)
 	for running {
 		r := vm.st.MatchFlag(state.FLAG_TERMINATE, true)
 		if r {
@@ -374,16 +376,13 @@ func (vm *Vm) runInCmp(ctx context.Context, b []byte) ([]byte, error) {
 		return b, err
 	}
 
-	reading := vm.st.GetFlag(state.FLAG_READIN)
 	have := vm.st.GetFlag(state.FLAG_INMATCH)
 	if err != nil {
 		panic(err)
 	}
 	if have {
-		if reading {
-			logg.DebugCtxf(ctx, "ignoring input - already have match", "input", sym)
-			return b, nil
-		}
+		logg.DebugCtxf(ctx, "ignoring input - already have match", "input", sym)
+		return b, nil
 	} else {
 		vm.st.SetFlag(state.FLAG_READIN)
 	}
